@@ -50,7 +50,24 @@ def make_leaf(d: str, name: str, sans: List[str], ca: Optional[Tuple[str, str]],
     with open(ext, 'w') as f:
         f.write('subjectAltName=%s\nbasicConstraints=CA:FALSE\nkeyUsage=digitalSignature,keyEncipherment\nextendedKeyUsage=serverAuth\n' % san_list(sans))
     _run(['req', '-new', '-key', key, '-out', csr, '-subj', '/CN=%s/O=origin' % sans[0][:60]])
-    dates = ['-not_before', '20200101000000Z', '-not_after', '20200201000000Z'] if expired else ['-days', '30']
+    if expired and ca is not None:
+        # `openssl x509 -not_before/-not_after` only exists from OpenSSL 3.4 on; `openssl ca -startdate/-enddate` is in every
+        # version (the system openssl here is 3.0, a newer one may or may not be first on PATH).
+        cad = os.path.join(d, name + '.ca')
+        os.makedirs(os.path.join(cad, 'new'), exist_ok=True)
+        open(os.path.join(cad, 'idx'), 'w').close()
+        with open(os.path.join(cad, 'serial'), 'w') as f:
+            f.write('%016X\n' % (int.from_bytes(os.urandom(7), 'big') | 1 << 56))
+        cfg = os.path.join(cad, 'ca.cnf')
+        with open(cfg, 'w') as f:
+            f.write('[ca]\ndefault_ca=c\n[c]\ndatabase=%s/idx\nnew_certs_dir=%s/new\nserial=%s/serial\ndefault_md=sha256\npolicy=p\n'
+                    'unique_subject=no\ncopy_extensions=none\n[p]\ncommonName=supplied\norganizationName=optional\n' % (cad, cad, cad))
+        _run(['ca', '-batch', '-notext', '-config', cfg, '-cert', ca[1], '-keyfile', ca[0], '-in', csr, '-out', crt, '-extfile', ext,
+              '-startdate', '20200101000000Z', '-enddate', '20200201000000Z'])
+        return key, crt
+    if expired:
+        raise ValueError('expired self-signed leaves are not needed by any check')
+    dates = ['-days', '30']
     if ca is None:
         _run(['x509', '-req', '-in', csr, '-signkey', key, '-out', crt, '-extfile', ext, '-sha256'] + dates)
     else:
